@@ -37,7 +37,15 @@ var vMultipartHookFn func(url string, req *http.Request) (*http.Response, bool)
 // the fake services are one linearisable server model: concurrent calls are served one at a time
 var vDoMu sync.Mutex
 
+// vStallFn, when set, serves a call before anything else (a service that does not answer)
+var vStallFn func(req *http.Request) (*http.Response, error, bool)
+
 func verifDo(req *http.Request) (*http.Response, error) {
+	if vStallFn != nil {
+		if resp, err, handled := vStallFn(req); handled {
+			return resp, err
+		}
+	}
 	vDoMu.Lock()
 	defer vDoMu.Unlock()
 	url := req.Host
